@@ -7,7 +7,7 @@ class Prop:
     pid = 'C02'
     props_file = 'Props/C02.v'
     required_theorems = ['cmp_code_refines_spec', 'hops_code_refines_spec', 'decision_order_total_preorder', 'dest_sorted_reachable',
-                         'best_eligible_maximal', 'ranking_order_independent', 'limited_and_ecmp_are_prefixes', 'ecmp_code_refines_spec']
+                         'best_eligible_maximal', 'ranking_order_independent', 'limited_and_ecmp_are_prefixes', 'ecmp_code_refines_spec', 'rs_local_best']
     extra_targets = ['Model/Rib.vo']
     correspondence_name = 'Model/Rib.v step vs rustybgp_table::Table (harness/hx-rib)'
     rule = ('histories of insert/replace/remove/drop/stale marks/purges/next-hop flips over 3 prefixes, 3 peers (each with a restarted '
@@ -110,6 +110,20 @@ class Prop:
                             return 'step %d: prefix %d ECMP set is not a prefix of the ranking' % (k, net)
                     elif got_ecmp != [(x[1], x[2]) for x in elig[:n]]:
                         return 'step %d: prefix %d ECMP set %s, expected %s' % (k, net, [(p[1], p[2]) for p in lp[6]], [(x[1], x[2]) for x in elig[:n]])
+            # route-server local RIB view shown by the API
+            for a, per in st[6]:
+                got_rs = {x[0]: tuple(x[1:]) for x in per}
+                for net, d in ref.paths.items():
+                    cands = [p for p in d.values() if p['src'][3] == 1 and p['src'][1] != a and ref.eligible(p)]
+                    if not cands:
+                        if got_rs.get(net, ()) != ():
+                            return 'step %d: RS-local view of peer %d shows a path for prefix %d, none is eligible' % (k, a, net)
+                        continue
+                    bestk = min(ref.key(net, p) for p in cands)
+                    g = got_rs.get(net, ())
+                    ok = [p for p in cands if ref.key(net, p) == bestk and (p['src'][0], p['attr']['tok']) == g]
+                    if not ok:
+                        return 'step %d: RS-local view of peer %d for prefix %d shows %s, which is not a best path among the other route-server clients' % (k, a, net, g)
             for net in locd:
                 if net not in ref.paths:
                     return 'step %d: Loc-RIB lists prefix %d which holds no path' % (k, net)
